@@ -59,6 +59,9 @@ type BMCResult struct {
 	Replayed        int
 }
 
+// pike functions entered while the event trees were built (all BMC systems of the run)
+var bmcFuncs = map[string]bool{}
+
 var bmcStats struct {
 	NQ, NSat, NUnsat, NUnk int
 	Dur                    time.Duration
@@ -219,6 +222,9 @@ func (w *World) buildTrees(hf *ssa.Function, opts *RunOpts, ex *Exec, mutable ma
 			ex.tm = &threadMode{tid: tid, mutable: mutable, written: map[string]bool{}, touched: map[string]*Cell{}, mutableKnown: known,
 				held: map[string]string{}, cache: map[string]Value{}, writeLock: writeLock, posCount: map[string]int{}}
 			res := ex.RunPath(hf, prefix)
+			for f := range res.Funcs {
+				bmcFuncs[f] = true
+			}
 			tm := ex.tm
 			if tm.setupPC != nil {
 				bmcSetupPC = tm.setupPC
